@@ -106,7 +106,7 @@ def check_template(ctx, t, sweep=True):
             continue
         S = len(steps)
         singleton = all(len(x) == 1 for x in steps) and [x[0] for x in steps] == [n for n, _ in R["trace"]]
-        caps = sorted(set([1, 2, max(1, S - 1), S, S + 1, S + 3] + [ctx.rng.randint(1, max(1, S)) for _ in range(2)]))
+        caps = sorted(set([0, 1, 2, max(1, S - 1), S, S + 1, S + 3] + [ctx.rng.randint(1, max(1, S)) for _ in range(2)]))
         for cap in caps:
             for mode in ("continue", "raise"):
                 case = {**base_case, "runner": runner, "max_iterations": cap, "error_handling": mode}
